@@ -125,6 +125,10 @@ func (w *Worker) runOne(c Case) {
 	res.ID = c.ID
 	b, _ := json.Marshal(res)
 	fmt.Fprintf(w.prog, "END %d %s\n", c.ID, b)
+	if res.ExitAfter {
+		w.prog.Sync()
+		os.Exit(4)
+	}
 }
 
 // ---------------------------------------------------------------------------
